@@ -624,3 +624,51 @@ def random_tree(rng, depth, kinds=("b", "i", "l", "f", "d", "e")):
         return ("P", ("B", op, go(d - 1), go(d - 1)))
     t = go(depth)
     return t[1] if t[0] == "P" else t
+
+
+def typed_tree(rng, kind, depth):
+    """random source tree whose static type is (very likely) `kind` in b i l f d; the model's
+    typechecker has the last word"""
+    order = ["i", "l", "f", "d"]
+
+    def leaf(k):
+        if k == "i" and rng.random() < 0.15:
+            k = "e"
+        return value_tree(k, pick_value(rng, k, 0.5))
+
+    def num(k, d):
+        if d == 0 or rng.random() < 0.2:
+            return atom(leaf(k))
+        r = rng.random()
+        lower = order[rng.randrange(order.index(k) + 1)]
+        a, b = (k, lower) if rng.random() < 0.5 else (lower, k)
+        if r < 0.5:
+            return ("P", ("B", rng.choice(ARITH), num(a, d - 1), num(b, d - 1)))
+        if r < 0.7 and k in "il":
+            op = rng.choice(INTONLY)
+            if op in ("shl", "shr"):
+                cnt = ("L", b, rng.choice([0, 1, 3, 7, 31] + ([40, 63] if k == "l" else [])))
+                return ("P", ("B", op, num(a, d - 1), cnt))
+            return ("P", ("B", op, num(a, d - 1), num(b, d - 1)))
+        if r < 0.8:
+            return ("P", ("U", "neg", num(k, d - 1)))
+        if r < 0.85 and k in "il":
+            return ("P", ("U", "bnot", num(k, d - 1)))
+        if r < 0.95:
+            return ("P", ("C", boolean(d - 1), num(k, d - 1), num(k, d - 1)))
+        return ("P", num(k, d - 1))
+
+    def boolean(d):
+        if d == 0 or rng.random() < 0.15:
+            return ("L", "b", rng.randrange(2))
+        r = rng.random()
+        if r < 0.55:
+            return ("P", ("B", rng.choice(CMP), num(rng.choice(order), d - 1), num(rng.choice(order), d - 1)))
+        if r < 0.8:
+            return ("P", ("B", rng.choice(["and", "or"]), boolean(d - 1), boolean(d - 1)))
+        if r < 0.9:
+            return ("P", ("U", "not", boolean(d - 1)))
+        return ("P", ("B", rng.choice(["eq", "neq"]), boolean(d - 1), boolean(d - 1)))
+
+    t = boolean(depth) if kind == "b" else num(kind, depth)
+    return t[1] if t[0] == "P" else t
